@@ -73,6 +73,39 @@ def random_parents_shaped(rng, n, shape):
     return par
 
 
+LARGE_SHAPES = ["uniform", "bushy", "binary", "chainroot", "spine", "broom", "ties", "ternary-chains"]
+LARGE_BANDS = [(41, 100), (101, 256), (257, 420), (421, 700), (701, 1200)]
+
+
+def random_parents_large(rng, n, shape, maxdepth=110):
+    """shaped random tree with MANY nodes; the depth is capped (the library's recursive queries and the literal printer
+    recurse once per level)."""
+    par, depth = [None], [0]
+    arms = rng.choice([2, 3, 5, 8])
+    for i in range(1, n):
+        if shape == "uniform":
+            p = rng.randrange(0, i)
+        elif shape == "bushy":
+            p = min(rng.randrange(0, i), rng.randrange(0, i))
+        elif shape == "binary":
+            p = (i - 1) // 2
+        elif shape == "chainroot":
+            p = 0 if i == 1 else rng.randrange(1, i)
+        elif shape == "spine":          # long paths with branches that grow their own sub-branches
+            p = i - 1 if rng.random() < 0.7 else rng.randrange(0, i)
+        elif shape == "broom":          # a handle, then a bush
+            p = i - 1 if i < min(n // 3, maxdepth // 2) else rng.randrange(max(0, min(n // 3, maxdepth // 2) - 1), i)
+        elif shape == "ties":
+            p = max(0, i - rng.choice([1, 2, 3, 4, 7]))
+        else:                           # several long arms below the root, each with side twigs
+            p = 0 if i <= arms else (i - arms if rng.random() < 0.8 else rng.randrange(0, i))
+        if depth[p] + 1 > maxdepth:
+            p = rng.choice([j for j in range(i) if depth[j] < maxdepth // 2])
+        par.append(p)
+        depth.append(depth[p] + 1)
+    return par
+
+
 def topo_order(rng, par):
     """random attach order (parent before child): the library's children order and the key
     order of its node dictionary both follow it."""
@@ -340,6 +373,29 @@ class C17(Prop):
         order = topo_order(rng, par) if shuffle else list(range(n))
         return {"kind": kind, "parents": par, "labels": lab, "attach": order, "pairs": pairs, "centres": centres}
 
+    def _large_case(self, rng, k, nbands):
+        """a tree with MANY nodes (41 .. 1200): sampled node pairs and centres for the exact tie; in addition the subtree / leaf /
+        size / root-path queries of EVERY node are observed and judged by the graph-search oracle."""
+        lo, hi = LARGE_BANDS[k % nbands]
+        n = rng.randrange(lo, hi + 1)
+        par = random_parents_large(rng, n, rng.choice(LARGE_SHAPES))
+        ch = util.children_of(par)
+        size = [1] * n
+        for i in range(n - 1, 0, -1):
+            size[par[i]] += size[i]
+        inner = [i for i in range(n) if ch[i]]
+        branching = [i for i in inner if len(ch[i]) >= 2 and any(ch[c] for c in ch[i])]
+        big = sorted(range(n), key=lambda i: -size[i])[:max(6, n // 20)]
+        leaves = [i for i in range(n) if not ch[i]]
+        # centres: the root, nodes with large subtrees, branching inner nodes, any inner node, leaves, any node
+        centres = [0] + rng.sample(big, 2) + rng.sample(branching, min(2, len(branching))) + rng.sample(inner, 1) + rng.sample(leaves, 1) + [rng.randrange(n)]
+        centres = list(dict.fromkeys(centres))
+        pick = lambda: rng.choice([0, rng.choice(leaves), rng.choice(leaves), rng.choice(inner), rng.randrange(n), rng.randrange(n)])
+        pairs = [[pick(), pick()] for _ in range(36)] + [[i, i] for i in rng.sample(range(n), 2)]
+        c = self._struct_case(par, rng, shuffle=rng.random() < 0.7, pairs=pairs, centres=centres, kind="large")
+        c["labels"] = rng.sample(range(0, n + n // 4 + 5), n) if rng.random() < 0.8 else list(range(n))
+        return c
+
     def _tdvp_history(self, rng, k, nmax, prepared=False):
         """several TDVP algorithm objects created (and used: time steps, complete runs, resets) in one process, on trees of
         one size whose identifiers are handed out along one canonical traversal (so the trees share their identifier set
@@ -432,6 +488,10 @@ class C17(Prop):
             c["pairs"] = [[n + 3, 0], [0, n + 3], [n + 3, n + 3], [n + 3, n + 4]]
             c["centres"] = [n + 3]
             cases.append(c)
+        # LARGE trees (41 .. 700 nodes quick, .. 1200 thorough): every band in every run
+        nb = ctx.scale(4, 5)
+        for k in range(ctx.scale(4, 30) * budget_scale):
+            cases.append(self._large_case(rng, k, nb))
         return cases
 
     @staticmethod
@@ -446,7 +506,8 @@ class C17(Prop):
         for x in cases:
             c["kind:" + x["kind"]] += 1
             n = len(self._parents(x))
-            c["n:" + (str(n) if n <= 9 else "10-19" if n < 20 else "20-40")] += 1
+            c["n:" + (str(n) if n <= 9 else "10-19" if n < 20 else "20-40" if n <= 40 else "41-100" if n <= 100 else "101-256" if n <= 256
+                      else "257-420" if n <= 420 else "421-700" if n <= 700 else "701-1200")] += 1
             if x["kind"] == "tdvp":
                 c["tdvp:objects"] += len(x["objects"])
                 c["tdvp:scheme-" + x["scheme"]] += 1
@@ -586,6 +647,14 @@ class C17(Prop):
         ob = {"pairs": pairs_l, "centres": centres_l}
         left_out = centres_l if n <= 8 else centres_l[:4]
         self._observe_tree(T, ob, set(lab), pairs_l, centres_l, left_out)
+        if case["kind"] == "large":
+            # the queries "below a node" / "up to the root" for EVERY node (judged by the graph-search oracle only)
+            tr = self._try
+            ob["every"] = {str(x): {"subtree": tr(lambda: [nid(k) for k in T.find_subtree_of_node(sid(x))]),
+                                    "subtree_is_nodes": tr(lambda: all(v is T.nodes[k] for k, v in T.find_subtree_of_node(sid(x)).items())),
+                                    "leaves": tr(lambda: [nid(k) for k in T.leaves_under_node(sid(x))]),
+                                    "size": tr(lambda: int(T.find_subtree_size_of_node(sid(x)))),
+                                    "to_root": tr(lambda: [nid(y) for y in T.find_path_to_root(sid(x))])} for x in lab}
         return ob
 
     def _impl_real(self, case):
@@ -1130,6 +1199,34 @@ class C17(Prop):
                 return f"leaves_under_node({x}) = {pr['leaves']['ok']}, expected {lv}"
             if pr["size"]["ok"] != len(ds):
                 return f"find_subtree_size_of_node({x}) = {pr['size']['ok']}, expected {len(ds)}"
+        if "every" in ob:
+            kids = {x: [v for v in adj[x] if v != parent.get(x)] for x in nodes}
+            for x in sorted(nodes):
+                pr = ob["every"][str(x)]
+                for key in pr:
+                    if "err" in pr[key]:
+                        return f"{key}({x}) raised {pr[key]['err']} (tree with {len(nodes)} nodes)"
+                ds, stack = [], [x]
+                while stack:
+                    u = stack.pop()
+                    ds.append(u)
+                    stack.extend(kids[u])
+                got = pr["subtree"]["ok"]
+                if sorted(got) != sorted(ds) or not pr["subtree_is_nodes"]["ok"]:
+                    miss = sorted(set(ds) - set(got))
+                    return (f"find_subtree_of_node({x}) on a tree with {len(nodes)} nodes returns {len(got)} nodes, graph search finds {len(ds)}"
+                            f" (missing e.g. {miss[:5]}, not below the node: {sorted(set(got) - set(ds))[:5]})")
+                lv = sorted(y for y in ds if not kids[y])
+                if sorted(pr["leaves"]["ok"]) != lv:
+                    return f"leaves_under_node({x}) on a tree with {len(nodes)} nodes returns {len(pr['leaves']['ok'])} nodes, expected the {len(lv)} leaves {lv[:8]}..."
+                if pr["size"]["ok"] != len(ds):
+                    return f"find_subtree_size_of_node({x}) = {pr['size']['ok']}, expected {len(ds)}"
+                up, u = [x], x
+                while u != root:
+                    u = parent[u]
+                    up.append(u)
+                if pr["to_root"]["ok"] != up:
+                    return f"find_path_to_root({x}) = {pr['to_root']['ok']}, following the parents gives {up}"
         all_leaves = sorted(y for y in nodes if all(v == parent.get(y) for v in adj[y]))
         if sorted(ob["get_leaves"]) != all_leaves:
             return f"get_leaves {ob['get_leaves']} expected {all_leaves}"
